@@ -167,15 +167,23 @@ def singleton(arg):
     return x
 
 
+def _intmsg(n):
+    """an integer for an error message; Python refuses to convert integers of thousands of digits to decimal"""
+    try:
+        return "%s" % (n,)
+    except ValueError:
+        return "a %d-bit integer" % (n.bit_length(),)
+
+
 def stream_read(stream, length, path):
     if length < 0:
-        raise StreamError("length must be non-negative, found %s" % length, path=path)
+        raise StreamError("length must be non-negative, found %s" % _intmsg(length), path=path)
     try:
         data = stream.read(length)
     except Exception:
-        raise StreamError("stream.read() failed, requested %s bytes" % (length,), path=path)
+        raise StreamError("stream.read() failed, requested %s bytes" % (_intmsg(length),), path=path)
     if len(data) != length:
-        raise StreamError("stream read less than specified amount, expected %d, found %d" % (length, len(data)), path=path)
+        raise StreamError("stream read less than specified amount, expected %s, found %d" % (_intmsg(length), len(data)), path=path)
     return data
 
 
@@ -205,7 +213,7 @@ def stream_seek(stream, offset, whence, path):
     try:
         return stream.seek(offset, whence)
     except Exception:
-        raise StreamError("stream.seek() failed, offset %s, whence %s" % (offset, whence), path=path)
+        raise StreamError("stream.seek() failed, offset %s, whence %s" % (_intmsg(offset), whence), path=path)
 
 
 def stream_tell(stream, path):
@@ -2533,7 +2541,7 @@ class Array(Subconstruct):
     def _parse(self, stream, context, path):
         count = evaluate(self.count, context)
         if not 0 <= count:
-            raise RangeError("invalid count %s" % (count,), path=path)
+            raise RangeError("invalid count %s" % (_intmsg(count),), path=path)
         discard = self.discard
         obj = ListContainer()
         for i in range(count):
@@ -2546,7 +2554,7 @@ class Array(Subconstruct):
     def _build(self, obj, stream, context, path):
         count = evaluate(self.count, context)
         if not 0 <= count:
-            raise RangeError("invalid count %s" % (count,), path=path)
+            raise RangeError("invalid count %s" % (_intmsg(count),), path=path)
         if not len(obj) == count:
             raise RangeError("expected %d elements, found %d" % (count, len(obj)), path=path)
         discard = self.discard
@@ -4236,7 +4244,7 @@ class Padded(Subconstruct):
         position2 = stream_tell(stream, path)
         pad = length - (position2 - position1)
         if pad < 0:
-            raise PaddingError("subcon parsed %d bytes but was allowed only %d" % (position2-position1, length), path=path)
+            raise PaddingError("subcon parsed %d bytes but was allowed only %s" % (position2-position1, _intmsg(length)), path=path)
         stream_read(stream, pad, path)
         return obj
 
@@ -6197,7 +6205,7 @@ class LazyArray(Subconstruct):
         if callable(count):
             count = count(context)
         if not 0 <= count:
-            raise RangeError("invalid count %s" % (count,), path=path)
+            raise RangeError("invalid count %s" % (_intmsg(count),), path=path)
         offset = stream_tell(stream, path)
         offsets = {0: offset}
         values = {}
@@ -6219,7 +6227,7 @@ class LazyArray(Subconstruct):
         if callable(count):
             count = count(context)
         if not 0 <= count:
-            raise RangeError("invalid count %s" % (count,), path=path)
+            raise RangeError("invalid count %s" % (_intmsg(count),), path=path)
         if not len(obj) == count:
             raise RangeError("expected %d elements, found %d" % (count, len(obj)), path=path)
         retlist = ListContainer()
